@@ -474,7 +474,7 @@ func c19JudgeListing(op string, md []byte, challenger string, pre, post map[chan
 
 func TestC19Rapid(t *testing.T) {
 	rec := evid.For("C19")
-	runRapid(t, 3000, 40000, func(rt *rapid.T) {
+	runRapid(t, 3000, 80000, func(rt *rapid.T) {
 		c := rec.Begin()
 		w := &c19World{e: henv.NewL1(henv.L1Options{})}
 		for i := 0; i < 4; i++ {
